@@ -735,7 +735,18 @@ Definition C08_ok (sp : spec) (r : result obs) : bool :=
   end.
 
 (* ---- hygiene H8 (decidable) ---------------------------------------------- *)
-Definition word_key (k : str) : bool := negb (is_nil k) && forallb is_word k.
+(** Parameter keys are spliced UNESCAPED into the used-parameter regex
+    (parameters.py:_get_used_parameters), so the literal scanner [uses_key] is
+    the regex only for keys without regex metacharacters.  Admitted: word
+    characters and the regex-harmless punctuation [- : @ % ~ , ! =] (each
+    checked against Python's [re] on the real code: outside a character class
+    they match themselves; e.g. the legal key MAT-ID).  Excluded by H8: keys
+    containing [. + * ? ( ) [ ] { } | ^ $ \], which the regex would read as
+    operators (the key would then match other texts than itself), and the
+    empty key. *)
+Definition key_punct : str := Str.s "-:@%~,!=".
+Definition is_keychar (c : N) : bool := is_word c || existsb (N.eqb c) key_punct.
+Definition word_key (k : str) : bool := negb (is_nil k) && forallb is_keychar k.
 
 Definition params_ok (ps : list param) : bool :=
   let n := nrows ps in
